@@ -130,6 +130,7 @@ def run_tlc(tag, module, consts, invariants, table_path=None, timeout=900, extra
         p = subprocess.run(cmd, cwd=d, stdout=fo, stderr=subprocess.STDOUT, env=dict(os.environ, JAVA_TOOL_OPTIONS="-Xss64m"))
     wall = time.time() - t0
     n_tr = 0
+    garbled = 0
     tail = []
     stats = None
     tf = open(table_path, "w") if table_path else None
@@ -139,7 +140,14 @@ def run_tlc(tag, module, consts, invariants, table_path=None, timeout=900, extra
                 if tf:
                     s = line.rstrip("\n")
                     s = s[len('<<"TR", "'):-len('">>')]
-                    tf.write(s.replace('\\"', '"').replace("\\\\", "\\") + "\n")
+                    s = s.replace('\\"', '"').replace("\\\\", "\\")
+                    try:
+                        json.loads(s)
+                    except ValueError:
+                        # two workers' output interleaved on one line: a tool problem, never a verdict
+                        garbled += 1
+                        continue
+                    tf.write(s + "\n")
                 n_tr += 1
             else:
                 tail.append(line)
@@ -154,6 +162,8 @@ def run_tlc(tag, module, consts, invariants, table_path=None, timeout=900, extra
     shutil.rmtree(os.path.join(d, "states"), ignore_errors=True)
     if p.returncode == 124:
         raise ToolError("TLC timed out after %ss (%s)" % (timeout, tag))
+    if garbled:
+        raise ToolError("%d transition lines printed by TLC were garbled (%s)" % (garbled, tag))
     violated = "is violated" in text or "Error:" in text
     if violated or p.returncode != 0 or stats is None or "Model checking completed. No error has been found." not in text:
         return {"ok": False, "text": text, "wall": wall, "tag": tag, "out": out}
